@@ -99,7 +99,7 @@ pub fn run(tier: Tier, seed: u64) -> i32 {
         }
         let sp = space(k);
         let n = sp.count(k);
-        let label = format!("programs with {k} statements (8 atomic statements, 4 block headers incl. a while that runs, nesting <= 3) x all layouts with <= {maxdev} deviations (blank/whitespace/comment lines anywhere, blank lines before the header, CRLF on one line or all, trailing comment, indentation of any line incl. the header, no final newline)");
+        let label = format!("programs with {k} statements (8 atomic statements, 4 block headers incl. a while that runs, nesting <= 3) x all layouts with <= {} deviations (blank/whitespace/comment lines anywhere, blank lines before the header, CRLF on one line or all, trailing comment, indentation of any line incl. the header, no final newline)", if tier == Tier::Thorough && k <= 3 && cfg == 0 { 3 } else if k <= 3 { maxdev } else { 1 });
         let st = par_range(&label, n, &deadline, |idx, st| {
             let body = sp.unrank(k, idx);
             let body = rename(&body, nq);
@@ -121,7 +121,8 @@ pub fn run(tier: Tier, seed: u64) -> i32 {
             }
             let nrows = r.items.len();
             let devs = singles(ls.len());
-            let layouts = up_to(&devs, if k <= 3 { maxdev } else { 1 });
+            // thorough: three deviations at once for programs of one or two statements
+            let layouts = up_to(&devs, if tier == Tier::Thorough && k <= 3 && cfg == 0 { 3 } else if k <= 3 { maxdev } else { 1 });
             let proj = Proj { input_values: false, expected: false, output: false, checked_kind: false, lines: true, vars: false, verdicts: false };
             let mut opts = RunOpts::new(nrows + 1);
             opts.repeat_last = true;
